@@ -312,6 +312,53 @@ def run_recorded(ctx, cmd, label, timeout):
     raise Inconclusive("harness %s crashed outside the SDK (%s):\n%s" % (label, first, p.stderr[-3000:]))
 
 
+def inflight(ctx, binp, kinds):
+    """Work in flight inside a stock component when Shutdown arrives (InFlight.tla): the documented shape keeps
+    NoLateExport (no Export begins after the exporter's Shutdown was called) for every component kind and context;
+    the ctx-bounded shape (the wait for the worker is given up when the context is done) must violate it -- the
+    model-level regression. The cells TLC enumerates are executed on the real components (`c15 inflight`, natural
+    gates) and judged by LifecycleContract."""
+    r = ctx.tlc(S, "InFlight", "InFlight.cfg", defines={"SHAPE": "wait"}, workers=1, name="inflight-wait", timeout=300)
+    cells = [s_[5:] for s_ in r["prints"] if isinstance(s_, str) and s_.startswith("CELL ")]
+    rb = ctx.tlc(S, "InFlight", "InFlight.cfg", defines={"SHAPE": "ctx-bounded"}, workers=1, name="inflight-ctx-bounded",
+                 must_pass=False, count=False, timeout=300)
+    ctx.extra["inflight_model"] = {"ctx-bounded shape violates": rb["violated"]}
+    if rb["violated"] != "NoLateExport":
+        ctx.note_inconclusive("model drift: the ctx-bounded shape of InFlight.tla no longer violates NoLateExport (%s)" % rb["out"])
+    cf = os.path.join(ctx.work, "inflight-cells.ndjson")
+    cells = list(dict.fromkeys(cells))
+    open(cf, "w").write("\n".join(cells) + "\n")
+    t4 = os.path.join(ctx.work, "trace-inflight.ndjson")
+    r4 = os.path.join(ctx.work, "res-inflight.json")
+    ctx.run([binp, "inflight", "-cells", cf, "-out", t4, "-res", r4, "-par", "6"], timeout=3000)
+    res4 = judge_trace(ctx, t4, r4, "inflight", kinds)
+    c4 = res4["counters"]
+    ctx.extra["inflight_cells"] = {k: v for k, v in c4.items() if k.startswith("inflight") or k == "scenarios_hung"}
+    if not cells or c4.get("inflight_cells", 0) != len(cells) or c4.get("inflight_gate_reached", 0) != len(cells):
+        ctx.note_inconclusive("in-flight cells: %d enumerated, %s executed, %s with the worker held at its gate"
+                              % (len(cells), c4.get("inflight_cells"), c4.get("inflight_gate_reached")))
+    return res4
+
+
+def reentrant(ctx, binp, kinds):
+    """Re-entrant components: every cell of the matrix Reentry.tla enumerates, one subprocess per cell."""
+    r = ctx.tlc(S, "Reentry", "Reentry.cfg", workers=1, name="reentry-cells", timeout=300)
+    cells = [s_[5:] for s_ in r["prints"] if isinstance(s_, str) and s_.startswith("CELL ")]
+    cf = os.path.join(ctx.work, "cells.ndjson")
+    open(cf, "w").write("\n".join(dict.fromkeys(cells)) + "\n")
+    ncells = len(set(cells))
+    t3 = os.path.join(ctx.work, "trace-reent.ndjson")
+    r3 = os.path.join(ctx.work, "res-reent.json")
+    ctx.run([binp, "reent", "-cells", cf, "-out", t3, "-res", r3, "-par", "6"], timeout=3000)
+    res3 = judge_trace(ctx, t3, r3, "reent", kinds)
+    c3 = res3["counters"]
+    ctx.extra["reentrant_cells"] = {k: v for k, v in c3.items() if k.startswith("reent") or k == "scenarios_hung"}
+    if c3.get("reent_cells", 0) != ncells or c3.get("reentrant_calls_made", 0) != ncells:
+        ctx.note_inconclusive("re-entrant cells: %d enumerated, %s executed, %s re-entrant calls made"
+                              % (ncells, c3.get("reent_cells"), c3.get("reentrant_calls_made")))
+    return res3
+
+
 def run(ctx):
     thorough = ctx.tier == "thorough"
     binp = ctx.go_build("c15")
@@ -334,21 +381,9 @@ def run(ctx):
     if ok1 and c1.get("bsp_race_second_call_returned", 0) != c1.get("bsp_race_schedules", -1) and "hung" not in kinds:
         ctx.note_inconclusive("D2/D3 schedules: the gated End / ForceFlush neither returned nor was reported hung (%s, desync=%s)"
                               % (ctx.extra["bsp_race"], c1.get("directed_desync", 0)))
-    # ---- re-entrant components: every cell of the matrix Reentry.tla enumerates, one subprocess per cell
-    r = ctx.tlc(S, "Reentry", "Reentry.cfg", workers=1, name="reentry-cells", timeout=300)
-    cells = [s_[5:] for s_ in r["prints"] if isinstance(s_, str) and s_.startswith("CELL ")]
-    cf = os.path.join(ctx.work, "cells.ndjson")
-    open(cf, "w").write("\n".join(dict.fromkeys(cells)) + "\n")
-    ncells = len(set(cells))
-    t3 = os.path.join(ctx.work, "trace-reent.ndjson")
-    r3 = os.path.join(ctx.work, "res-reent.json")
-    ctx.run([binp, "reent", "-cells", cf, "-out", t3, "-res", r3, "-par", "6"], timeout=3000)
-    res3 = judge_trace(ctx, t3, r3, "reent", kinds)
-    c3 = res3["counters"]
-    ctx.extra["reentrant_cells"] = {k: v for k, v in c3.items() if k.startswith("reent") or k == "scenarios_hung"}
-    if c3.get("reent_cells", 0) != ncells or c3.get("reentrant_calls_made", 0) != ncells:
-        ctx.note_inconclusive("re-entrant cells: %d enumerated, %s executed, %s re-entrant calls made"
-                              % (ncells, c3.get("reent_cells"), c3.get("reentrant_calls_made")))
+    # ---- re-entrant components (incl. telemetry-producing exporters / processors), work in flight at Shutdown
+    res3 = reentrant(ctx, binp, kinds)
+    res4 = inflight(ctx, binp, kinds)
     # ---- seeded random concurrent scenarios
     n = 20000 if thorough else 600
     t2 = os.path.join(ctx.work, "trace-random.ndjson")
@@ -357,7 +392,7 @@ def run(ctx):
     res2 = judge_trace(ctx, t2, r2, "random", kinds) if ok2 else EMPTY
     ctx.add_samples(res2["samples"][:1], cap=6)
     conc = {}
-    for res in (res1, res2, res3):
+    for res in (res1, res2, res3, res4):
         for k, v in res["counters"].items():
             conc[k] = conc.get(k, 0) + v
     ctx.extra["concurrent_counters"] = conc
